@@ -42,7 +42,7 @@ META["C20"] = {"files": ["cif.c", "cif.h"], "functions": ["cif_errlist (table)",
 
 # ------------------------------------------------------------------------------------------ C10
 def c10(tier):
-    K = 8 if tier == "quick" else 12
+    K = 8 if tier == "quick" else 10           # 12 gave no verdict in 1800 s (measured); 9 takes ~200 s
     qs = []
     for mode in ("func", "safety"):
         qs.append(Q("C10_lex_K%d_%s" % (K, mode), "h10_lex.c", defs={"KLEN": K}, extra=ICU, unwind=K + 2, mode=mode,
@@ -878,7 +878,7 @@ MANI["C10"] = {
     "text": "Bounded model checking of the real cif_value_parse_numb against a reference parser of the numeric grammar: acceptance, "
             "CIF_INVALID_NUMBER + untouched value on rejection, sign/digits/scale/su decomposition on acceptance, for ALL strings of 16-bit "
             "code units up to the stated length, plus structured long-exponent inputs with signed-overflow checks.",
-    "note": "strings <= 9 (quick) / 12 (thorough) units; malloc succeeds; correct rounding of to_double/to_digits and the formatters are "
+    "note": "strings <= 8 (quick) / 10 (thorough) units; malloc succeeds; correct rounding of to_double/to_digits and the formatters are "
             "claimed only where a query for them is listed in evidence; cif_value_autoinit_numb (libc sprintf) is outside"}
 MANI["C18"] = {
     "text": "Bounded model checking of the real cif_analyze_string, cif_is_reserved_string, cif_value_set_quoted/try_quoted against "
